@@ -3,4 +3,6 @@
 #define VERIF_VIEWS_H
 #include <stdint.h>
 struct theta_view { uint64_t theta; uint32_t num; uint8_t is_empty, is_ordered; uint16_t seed_hash; uint64_t e[8]; uint32_t iterated; };
+/* generic observation record for serde harnesses: getters + checksums, filled by w_<fam>_image (original) and w_<fam>_deser (restored) */
+struct gen_view { uint64_t f[16]; };
 #endif
